@@ -100,6 +100,56 @@ CHECKS = {
     design_ref="DESIGN.md section 3 C04",
     note="A '#' comment that is not set off by white space or not ended by a line end, and white space after a units expression, are outside the statement and not generated.",
     technique="TLA+ generator + reference loader + TLC; spec->code replay; metamorphic re-layout of real labels at TLC-computed token boundaries"),
+ "C01": dict(
+    text="TLC generates modules (spec/MC_Module.tla: a value lexicon on the class borders of the dialects x positions, plus duplicate keys, group/object mixes, unusual names), "
+         "checks that Norm (spec/PvlNorm.tla: the documented normalisations) is idempotent, and computes Norm(E, E, m) for every dump; the real encoders write every module under a grid of "
+         "option combinations; the strict loader of the same dialect must return Norm(E, E, m); the reference reader (TLC) reads the same text, which separates encoder faults from loader faults.",
+    design_ref="DESIGN.md section 3 C01",
+    note="Refusal with ValueError/TypeError is always allowed; floats and ints are compared by value (Python's int()/float() trusted).",
+    technique="TLA+ normalisation model + reference reader, TLC; code->spec judging of encoder output and reload comparison"),
+ "C02": dict(
+    text="Same generator, encoders and option grid as C01; every written text is read by pvl.loads with no arguments and must give Norm(E, OMNI, m) with an empty errors list.",
+    design_ref="DESIGN.md section 3 C02",
+    note="As C01.",
+    technique="TLA+ normalisation model, TLC; spec-generated modules dumped by the code and reloaded with the default loader"),
+ "C07": dict(
+    text="Texts the default loader accepts (TLC-generated labels with free spelling, every token sequence the tolerant reference grammar accepts incl. missing values, the corpus, seeded corpus splices) "
+         "x 4 encoders: load, dump, load, dump; the second load must equal Norm(E, OMNI, first load) computed by TLC and the second dump must be byte-identical (multiset of lines with sets).",
+    design_ref="DESIGN.md section 3 C07",
+    note="Encoders with default options.",
+    technique="TLA+ normalisation model, TLC; spec-generated and real texts cycled through the code, judged against Norm"),
+ "C09": dict(
+    text="spec/PvlEntry.tla specifies every entry point as 'longest valid UTF-8 prefix, then reference load' (strict UTF-8 decoder in TLA+); labels x separators after END x trailing byte strings are "
+         "handed to load()/loadu()/loads() in 7 ways and every result is compared with the reference outcome TLC computes for the bytes; a counting lexer checks that no token is requested after END; "
+         "dump targets are judged by spec/Trace_Entry.tla.",
+    design_ref="DESIGN.md section 3 C09",
+    note="Trailers up to 256 KiB (1 MiB thorough); TLC sees the label plus the first 160 trailer bytes (nothing after END is read by the reference).",
+    technique="TLA+ entry-point model + reference loader, TLC; code->spec judging of entry-point runs"),
+ "C12": dict(
+    text="Every text written by the real encoders for the C01 module generator and option grid is one trace judged by TLC (spec/Trace_Output.tla): the reference lexer and strict grammar of the "
+         "encoder's dialect read it; layout predicates over token positions and gaps check characters, well-formedness, END tail, white space, statement indentation, '=' alignment, keyword spelling, "
+         "end-statement names, delimiters and ODL parameter names.",
+    design_ref="DESIGN.md section 3 C12",
+    note="Alignment of statements that do not fit on one line, where long values are broken and which quote character is used are left free.",
+    technique="TLA+ reference reader + layout predicates evaluated by TLC on recorded encoder output (trace validation)"),
+ "C18": dict(
+    text="spec/MC_Doc.tla (profile 'hooks') generates labels with reals at every grammar position and states, with Retag, the tree each hook combination must yield (TLC checks that retagging changes "
+         "nothing else); the labels are loaded with PVL/ODL/ISIS/default parsers x {Decimal; recording str subclass + recording quantity class + subclassed containers; Fraction} and compared.",
+    design_ref="DESIGN.md section 3 C18",
+    note="PDSLabelDecoder takes no real_cls and is not exercised with one.",
+    technique="TLA+ generator with Retag + TLC; spec->code replay"),
+ "C19": dict(
+    text="Well-formed labels generated by TLC and the corpus: pvl.loads vs pvl.new.loads and pvl.dumps vs pvl.new.dumps (4 encoders and the default), judged by TLC "
+         "(spec/Trace_Frontends.tla: new tree = AsNew(old tree), equal success, equal dump digests).",
+    design_ref="DESIGN.md section 3 C19",
+    note="Texts with missing values are excluded (not well-formed).",
+    technique="TLA+ front-end model, TLC; code->spec trace judging (differential)"),
+ "C20": dict(
+    text="TLC enumerates tool invocations over a pool of generated, damaged, missing-value and corpus files (spec/MC_Frontends.tla); pvl_translate and pvl_validate main() are run in-process, the "
+         "library calls they front are made separately on fresh instances, and TLC judges text by text and cell by cell (spec/Trace_Frontends.tla over spec/Frontends.tla), including the JSON document's names and values.",
+    design_ref="DESIGN.md section 3 C20",
+    note="In-process invocation (argv lists); report text parsed by splitting on '|'.",
+    technique="TLA+ front-end model, TLC; code->spec trace judging"),
 }
 PENDING_REASON = "check not built yet in this round (planned, see DESIGN.md section 6); not claimed until it runs"
 ALL = ["C%02d" % i for i in range(1, 21)]
